@@ -120,17 +120,23 @@ def run_traces(chk, exe, judge, names):
         same = m is not None and m["ok"] == r["ok"] and m["leaked"] == r["leaked"] and m["ev"] == r["ev"] and (not cmp_owned or m["owned"] == r["owned"]) \
             and (m["valid"] == "-" or m["valid"] == r["valid"])
         if not same:
-            chk.broken.append(("trace-mismatch:" + tag, "real %s | model %s" % (json.dumps({k: r[k] for k in ("ok", "leaked", "owned", "valid", "ev")}), json.dumps(m))))
+            detail = "real %s | model %s" % (json.dumps({k: r[k] for k in ("ok", "leaked", "owned", "valid", "ev")}), json.dumps(m))
+            if r["leaked"] not in ("0",) or r["valid"] == "0":
+                # the real code leaks / leaves an invalid object where the model of the current text (proved balanced for all k) does not
+                agg.add({"mode": "trace", "kind": "leak" if r["leaked"] != "0" else "invalid", "site": prog, "family": "container", "model_agrees": False},
+                        {"scenario": r["scenario"], "k": r["k"], "params": r["params"], "detail": detail, "theorem": "C14_cotree_%s_unwind_balanced (model of the current text)" % {"iter": "iter_ctor", "copy": "copy_ctor", "rebuild": "rebuild_bigger"}.get(prog, prog)})
+            else:
+                chk.broken.append(("trace-mismatch:" + tag, detail))
             continue
         agree += 1; events += len(r["ev"].split())
         chk.count(1, key=("trace", prog, r["ok"], r["leaked"] != "0", r["valid"]))
         # agreement on a defect is still a failure of the property on the real code
         if r["leaked"] != "0":
             agg.add({"mode": "trace", "kind": "leak", "site": "CO_Tree::CO_Tree(Iterator,n)" if prog == "iter" else prog, "family": "container"},
-                        {"scenario": r["scenario"], "k": r["k"], "params": r["params"], "events": r["ev"], "leaked_blocks": r["leaked"], "theorem": "C14_cotree_iter_ctor_leaks_exactly"})
+                        {"scenario": r["scenario"], "k": r["k"], "params": r["params"], "events": r["ev"], "leaked_blocks": r["leaked"], "theorem": "C14_cotree_iter_ctor_unwind_balanced"})
         if r["valid"] == "0":
             agg.add({"mode": "trace", "kind": "invalid", "site": "CO_Tree::init" if prog == "assign" else prog, "family": "container"},
-                        {"scenario": r["scenario"], "k": r["k"], "params": r["params"], "events": r["ev"], "theorem": "C14_cotree_assign_usable_after_refuted"})
+                        {"scenario": r["scenario"], "k": r["k"], "params": r["params"], "events": r["ev"], "theorem": "C14_cotree_assign_unwind_balanced"})
     agg.flush(chk)
     chk.extra["trace_positions_compared"] = len(real)
     chk.extra["trace_positions_agreeing"] = agree
@@ -184,7 +190,8 @@ def report_sweeps(chk, mode, results, expect_exn):
             out = p.get("out", "?")
             kinds = classify(p, r["leakinfo"])
             if out not in expect_exn: kinds.append("other-exception:" + out)
-            site = "<".join(c14_fault.frames_of(p)[:2]) if c14_fault.frames_of(p) else "?"      # requesting function and its caller
+            # requesting function and its caller; when everything is inlined into the scenario (no library frame): the scenario + layer
+            site = "<".join(c14_fault.frames_of(p)[:2]) if c14_fault.frames_of(p) else "@%s/%s" % (r["name"], p.get("layer", mode))
             chk.count(1, key=(mode, fam, site, p.get("layer")))
             for kd in kinds:
                 nbad += 1; st["by_kind"][kd] = st["by_kind"].get(kd, 0) + 1
@@ -193,8 +200,10 @@ def report_sweeps(chk, mode, results, expect_exn):
                              "replay_cmd": "build/c14-bin/run_fault_mpz_* %s %s 100000 ng %s" % (mode, r["name"], p.get("k"))})
         for p in r["crashes"]:
             nbad += 1; st["crashes"] += 1
-            site = "<".join(c14_fault.frames_of(p)[:2]) if c14_fault.frames_of(p) else "?"
-            kd = ("hang-" if "timeout" in p.get("how", "") else "crash-") + p.get("phase", "?")
+            site = "<".join(c14_fault.frames_of(p)[:2]) if c14_fault.frames_of(p) else "@%s/%s" % (r["name"], p.get("layer", mode))
+            # the harness process died or did not return: after a fault both are manifestations of the same corrupted object (undefined behaviour),
+            # which one shows depends on the memory layout, so they share one kind
+            kd = "crash-or-hang-" + p.get("phase", "?")
             st["by_kind"][kd] = st["by_kind"].get(kd, 0) + 1
             agg.add({"mode": mode, "kind": kd, "site": site, "family": fam},
                         {"scenario": r["name"], "k": p.get("k"), "record": p, "replay_cmd": "build/c14-bin/run_fault_mpz_* %s %s 100000 ng %s" % (mode, r["name"], p.get("k"))})
@@ -357,27 +366,3 @@ def run(chk):
         pass
     except common.BuildError as e:
         chk.broken.append(("int8-build", str(e)[-800:]))
-
-    # ---- census helper (used once, on the unchanged tree, to write the known-findings fragment) ----
-    if os.environ.get("C14_WRITE_FINDINGS"):
-        write_findings(chk)
-
-
-def write_findings(chk):
-    seen = {}
-    for info, path in chk.violations:
-        if info.get("mode") in ("sweep", "abandon", "weight", "overflow"):
-            key = (info["mode"], info["kind"], info["site"], info["family"])
-            seen.setdefault(key, path)
-    path = os.path.join(common.VERIF, "known_findings.d", "C14.census.json")
-    out = []
-    for i, (key, rp) in enumerate(sorted(seen.items())):
-        rep = json.load(open(rp))
-        ex = (rep.get("examples") or [{}])[0]
-        out.append({"id": "C14-enum-%03d" % i, "property": "C14", "status": "open",
-                    "what": "%s: after a failure injected in %s (%s scenarios): %s" % (key[0], key[2], key[3], key[1]),
-                    "match": {"mode": key[0], "kind": key[1], "site": key[2], "family": key[3]},
-                    "input": "%s k=%s (%s positions)" % (ex.get("scenario", ex.get("line", "?")), ex.get("k", "?"), rep.get("positions_failing", "?"))})
-    with open(path, "w") as f:
-        json.dump({"findings": out}, f, indent=1)
-    chk.log("wrote %d census findings to %s" % (len(out), path))
